@@ -92,6 +92,26 @@ def cases(seed, tier):
         c["script"][ci]["settle"] = rng.choice(["idle", 0, 1, "idle"])
         yield c
     yield from generic.engine_side_cases(rng, base, dv, k=3)
+    # an open_run that is refused (the metadata validator rejects it) and handled by the plan, which then opens the
+    # run properly - sometimes with another run already open: a refused open_run has no span
+    for j in range(2):
+        S3 = SiteCounter()
+        c = copy.deepcopy(base)
+        c["variant"] = f"refused-open-run-{j}"
+        c["re"]["md_validator"] = "reject_key"
+        c["re"]["reject_key"] = "forbidden"
+        key = rng.choice([None, "B"])
+        plan = []
+        if rng.random() < 0.5:
+            plan.append(msg(S3, "open_run", None, run="A"))
+        plan.append({"op": "try", "site": S3(), "body": [msg(S3, "open_run", None, run=key, forbidden=1)], "handlers": [{"exc": "ValueError", "body": [msg(S3, "null")], "reraise": False}]})
+        if rng.random() < 0.7:
+            plan += [msg(S3, "open_run", None, run=key), msg(S3, "checkpoint"), msg(S3, "null"), msg(S3, "close_run", None, run=key)]
+        if plan[0].get("cmd") == "open_run" and rng.random() < 0.6:
+            plan.append(msg(S3, "close_run", None, run="A"))
+        c["script"][ci]["plan"] = plan
+        c["script"][ci].pop("inject", None)
+        yield c
     # a request that arrives while the engine's own end-of-call clean-up is awaiting a device (an asynchronous
     # stop()): runs the plan left open are closed by that clean-up, after the request changed how the call ends
     motors = gen.names(base["devices"], "motor", "pmotor")
@@ -154,7 +174,10 @@ def check(res):
             out.append(V("run-without-span", f"run {uid[:8]} has no span"))
     for s in spans.values():
         if s["run"] is None or s["opened"] is False:
+            # a run span belongs to a run: an open_run that was refused (no RunStart) has none - otherwise a later
+            # open_run of the same key replaces it unended, or the clean-up reports a status for a run that never existed
             res.sim.probe("span-of-failed-open_run")
+            out.append(V("span-without-run", f"span #{s['sid']} was started by an open_run that did not open a run (no RunStart); it was ended {len(s['ends'])} time(s)"))
             continue
         if len(s["ends"]) > 1:
             out.append(V("span-ended-twice", f"span #{s['sid']} of run {s['run'][:8]} was ended {len(s['ends'])} times"))
